@@ -13,6 +13,8 @@ import time
 import traceback
 
 ROOT = os.path.dirname(os.path.dirname(os.path.abspath(__file__)))
+EVID_DIR = os.environ.get("VERIF_EVIDENCE_DIR") or os.path.join(ROOT, "evidence")
+REPLAY_DIR = os.environ.get("VERIF_REPLAY_DIR") or os.path.join(ROOT, "replays")
 NPROC = int(os.environ.get("VERIF_PROCS", "0")) or min(16, os.cpu_count() or 1)
 
 
@@ -255,12 +257,12 @@ def finish(prop, tier, seed, level, col, rule, t0, module, assumptions=(), extra
             kf_hits[matched["id"]] += f["count"]
             continue
         violations.append((bucket, f))
-    os.makedirs(os.path.join(ROOT, "replays", prop), exist_ok=True)
+    os.makedirs(os.path.join(REPLAY_DIR, prop), exist_ok=True)
     vio_out = []
     for bucket, f in violations:
         name = "v-%s-%016x.json" % (tier, h64(bucket))
-        rel = os.path.join("replays", prop, name)
-        path = os.path.join(ROOT, rel)
+        path = os.path.join(REPLAY_DIR, prop, name)
+        rel = os.path.relpath(path, ROOT)
         doc = {"property": prop, "bucket": bucket, "case": jsonable(f["case"]),
                "detail": jsonable(f["detail"]), "count": f["count"], "seed": seed, "tier": tier}
         with open(path, "w") as fp:
@@ -313,8 +315,8 @@ def finish(prop, tier, seed, level, col, rule, t0, module, assumptions=(), extra
         "wall_s": round(time.time() - t0, 2),
         "violations": len(violations),
     }
-    os.makedirs(os.path.join(ROOT, "evidence"), exist_ok=True)
-    with open(os.path.join(ROOT, "evidence", "%s.json" % prop), "w") as fp:
+    os.makedirs(EVID_DIR, exist_ok=True)
+    with open(os.path.join(EVID_DIR, "%s.json" % prop), "w") as fp:
         json.dump(ev, fp, indent=1, sort_keys=True)
     out.write("%s tier=%s seed=%d evaluations=%d distinct_nontrivial=%d buckets=%d violations=%d wall=%.1fs\n" % (
         prop, tier, seed, col.evals, col.distinct_nontrivial, len(col.fails), len(violations), time.time() - t0))
